@@ -223,11 +223,29 @@ struct Dumper
 		return O;
 	}
 
+	// A free function that no header declares: a file-local helper (static, anonymous namespace, or simply
+	// defined in the .cpp only).  Such helpers are implementation detail of their callers.
+	bool isFileLocal(const FunctionDecl* FD)
+	{
+		if(!FD || isa<CXXMethodDecl>(FD) || !inScope(FD->getLocation()))
+			return false;
+		if(FD->isTemplateInstantiation() || FD->getTemplatedKind() != FunctionDecl::TK_NonTemplate)
+			return false;
+		if(!FD->isExternallyVisible())
+			return true;
+		for(const FunctionDecl* R : FD->redecls())
+			if(!SM.isInMainFile(SM.getExpansionLoc(R->getLocation())))
+				return false;
+		return true;
+	}
+
 	json::Value calleeInfo(const FunctionDecl* FD)
 	{
 		json::Object C;
 		if(!FD)
 			return nullptr;
+		if(isFileLocal(FD))
+			C["local"] = true;
 		C["q"]	 = FD->getQualifiedNameAsString();
 		C["sig"] = sigOf(FD);
 		C["name"] = FD->getNameAsString();
@@ -835,6 +853,8 @@ struct Dumper
 		F["ret"]  = tyStr(FD->getReturnType());
 		if(isLambda)
 			F["lambda"] = true;
+		else if(isFileLocal(FD))
+			F["local"] = true;
 		if(FD->isNoReturn())
 			F["noreturn"] = true;
 		if(FD->getTemplatedKind() == FunctionDecl::TK_FunctionTemplate)
